@@ -36,7 +36,7 @@ HOW TO BUILD AND TEST in the worktree (python is /venv/bin/python, version 3.12;
   PYTHONPATH={wt}/src /venv/bin/python -c "import cffi, _cffi_backend; print(cffi.__file__, _cffi_backend.__file__)"   # must print paths inside {wt}
   # tests (ALWAYS with PYTHONPATH={wt}/src so the worktree's code is used, not the installed one):
   PYTHONPATH={wt}/src /venv/bin/python -m pytest -q -p no:cacheprovider --timeout=900 src/c/test_c.py testing/cffi0 testing/cffi1 testing/embedding
-  The full suite (`PYTHONPATH={wt}/src /venv/bin/python -m pytest -q -p no:cacheprovider --timeout=900 --continue-on-collection-errors` from {wt}) takes about 12 minutes serially; on the unchanged tree it gives 1981 passed, 96 skipped, 4 xfailed. Do not use pytest-xdist (-n): a few tests are not parallel-safe. While iterating, run the most relevant test files first (e.g. src/c/test_c.py takes 3 s, testing/cffi0/test_parsing.py 2 s); before you finish, each change must have been run against the full suite (apply one change at a time) and the result must be the same as the unchanged tree. If a change makes any existing test fail, it is not acceptable: refine it so it is only triggered by conditions the tests do not cover.
+  The full suite (`PYTHONPATH={wt}/src /venv/bin/python -m pytest -q -p no:cacheprovider --timeout=900 --continue-on-collection-errors` from {wt}) takes about 12 minutes serially; on the unchanged tree it gives 1981 passed, 96 skipped, 4 xfailed. Do not use pytest-xdist (-n): a few tests are not parallel-safe. While iterating, run the most relevant test files first (e.g. src/c/test_c.py takes 3 s, testing/cffi0/test_parsing.py 2 s); before you finish, each change must have been run (apply one change at a time) against at least `src/c/test_c.py testing/cffi0` plus the testing/cffi1 and testing/embedding files relevant to the code you touched, with the same result as the unchanged tree; the complete suite will be re-run on your patches by me afterwards, so think hard about which existing tests could notice your change. If a change makes any existing test fail, it is not acceptable: refine it so it is only triggered by conditions the tests do not cover.
   Run demo.py as: PYTHONPATH={wt}/src /venv/bin/python demo.py   (write demo.py so it works with that command from any cwd; it may create temp dirs with tempfile and should clean up).
 
 Procedure: read the relevant code, pick two mechanisms, for each: make the change, rebuild, run relevant tests, write demo.py, confirm demo fails with the change and passes without (git stash / git apply -R to compare), save patch.diff, then revert the worktree to clean HEAD (git checkout -- src) before starting the next one. At the end the worktree must be at clean HEAD (except the untracked _seed/ directory and build outputs).
